@@ -55,7 +55,18 @@ JudgeC04(e) ==
     ELSE IF e.reser # s THEN "C04:reparse-serialize"
     ELSE "ok"
 
+\* ---- C08 (parse part): a message or a UBX* error, and every returned message can be inspected
+JudgeC08(e) ==
+    IF e.out = "hang" THEN "C08:parse-hang"
+    ELSE IF e.out \notin {"msg", "ubxparse", "ubx"} THEN "C08:foreign-exception-from-parse:" \o e.out
+    ELSE IF e.out # "msg" THEN "ok"
+    ELSE LET bad == {i \in 1..Len(e.inspect) : e.inspect[i][2] # "ok"} IN
+         IF bad = {} THEN "ok"
+         ELSE LET i == CHOOSE i \in bad : \A j \in bad : i <= j IN
+              "C08:inspect-" \o e.inspect[i][1] \o "-raised:" \o e.inspect[i][2]
+
 Judge(e) == CASE e.prop = "C01" -> JudgeC01(e)
+              [] e.prop = "C08" -> JudgeC08(e)
               [] e.prop = "C05" -> JudgeC05(e)
               [] e.prop = "C04" -> JudgeC04(e)
               [] OTHER -> "unknown-prop"
